@@ -187,7 +187,7 @@ class Rig:
             orig(request_line, headers)
         return on_data
 
-    async def packet(self, sock: str, ts_us: int, data: bytes, addr: tuple) -> None:
+    async def packet(self, sock: str, ts_us: int, data: bytes, addr: tuple, sent: Optional[List[List[str]]] = None) -> None:
         self.now_us = ts_us
         self.captured = None
         try:
@@ -197,7 +197,17 @@ class Rig:
             self.tags.add(f"exc:{type(e).__name__}")
         for _ in range(3):
             await asyncio.sleep(0)
-        if self.captured is None:
+        if self.captured is None and sent is not None:
+            # the harness knows what it sent: a well-formed SSDP message that never reached `_on_data` is judged as the
+            # message it is (headers as built, plus the receive time and the udn of a uuid USN), not as noise
+            pairs = [[k.strip(), v.strip()] for k, v in sent] + [["_timestamp", str(ts_us)]]
+            usn = next((v.strip() for k, v in sent if k.strip().lower() == "usn"), "")
+            if usn.lower().startswith("uuid:"):
+                pairs.append(["_udn", usn.partition("::")[0]])
+            toks = [f"{self.sid(k)}={self.sid(v)}" for k, v in pairs]
+            self.lines.append(f"lost {sock} {ts_us} {' '.join(toks)}")
+            self.tags.add("ev:lost")
+        elif self.captured is None:
             self.lines.append(f"drop {ts_us}")
             self.tags.add("ev:drop")
         else:
@@ -237,7 +247,7 @@ def run_ops(ops: List[Any], cbs: str = "both") -> Tuple[List[str], List[str]]:
                 if op[0] == "pkt":
                     _, sock, ts, first, hdrs, addr = op
                     rig.tags.add(f"ev:{op_kind(op)}")
-                    await rig.packet(sock, int(ts), build_packet(first, hdrs), tuple(addr))
+                    await rig.packet(sock, int(ts), build_packet(first, hdrs), tuple(addr), sent=hdrs)
                 elif op[0] == "raw":
                     _, sock, ts, hexdata, addr = op
                     rig.tags.add("ev:raw")
@@ -558,6 +568,11 @@ CORPUS += [
              mk_search(0, UDNS[2], TYPES[0], *GOOD_LOCS[2], "max-age=251824463999", []),
              mk_search(1, UDNS[3], TYPES[0], *GOOD_LOCS[1], "max-age=251824463999", []),
              ["purge", TMAX - 1], ["purge", TMAX]]},
+    # the same datagram twice (audit C03-4): the second one refreshes the validity (seen at 3 with max-age 5 -> valid to 8)
+    {"ops": [mk_search(0, UDNS[0], TYPES[0], *GOOD_LOCS[0], "max-age=5", []),
+             mk_search(3 * SEC, UDNS[0], TYPES[0], *GOOD_LOCS[0], "max-age=5", []), ["purge", 6 * SEC],
+             mk_notify(7 * SEC, "ssdp:update", UDNS[0], TYPES[0], *GOOD_LOCS[0], "max-age=5", []),
+             mk_notify(8 * SEC, "ssdp:update", UDNS[0], TYPES[0], *GOOD_LOCS[0], "max-age=5", []), ["purge0", 12 * SEC]]},
     # timestamps at datetime.min, equal and backwards
     {"ops": [mk_search(TMIN, UDNS[0], TYPES[0], *GOOD_LOCS[0], "max-age=5", []),
              mk_search(TMIN, UDNS[1], TYPES[0], *GOOD_LOCS[1], None, []),
